@@ -7,7 +7,7 @@ transformed orography).  The symmetry acts on expressions by the rules proved in
                to_nodal / to_modal intertwine M with the grid-space flip (bounded numeric clause of this property);  pointwise products map
                factor-wise;  vertical operators (sigma integrals, slices along the level axis, vertical advection, the omega term) act on the
                level axis only and commute;  f = 2 Omega sin(lat) is odd, sec^2(lat), the sigma values and the reference temperature are even;
-               the state transforms as (zeta, delta, T', ln ps, q) -> (-M zeta, M delta, M T', M ln ps, M q)   (vorticity is a pseudo-scalar).
+               f = 2 Omega sin(lat) is computed by the real `coriolis_parameter` property from the grid's sin(lat) mesh (odd under the mirror); the state transforms as (zeta, delta, T', ln ps, q) -> (-M zeta, M delta, M T', M ln ps, M q)   (vorticity is a pseudo-scalar).
    rotation R: every operator commutes and every constant is invariant.
 Obligation:  F(T x) == T' F(x)  field by field, decided by multilinear normal form (vlib/pyvc/multilinear.py): both sides are expanded into signed
 monomials over the operators and compared -- no solver, all fields, all sizes, all level counts.
@@ -26,7 +26,7 @@ Fld = W.Fld
 U1 = lambda n: z3.Function(n, Fld, Fld)
 CSI = U1('cumulative_sigma_integral')
 RECIP = U1('nodal_reciprocal')
-SIGH, TREF, ONE = (z3.Const(n, Fld) for n in ('sigma_half_levels', 'T_ref', 'nodal_one'))
+SIGH, TREF, ONE, SINLAT, LONF = (z3.Const(n, Fld) for n in ('sigma_half_levels', 'T_ref', 'nodal_one', 'sin_lat', 'longitude'))
 _SLICES = {}
 
 
@@ -145,6 +145,7 @@ def _grid(en):
   for nm, f in (('to_nodal', W.TON), ('to_modal', W.TOM), ('laplacian', W.LAP)):
     setattr(g, nm, E.SymCallable(lift_tree(f), f'Grid.{nm} (uninterpreted, leaf-wise)'))
   g.sec2_lat = W.SEC2F
+  g.nodal_mesh = (LONF, SINLAT)
   g.clip_wavenumbers = E.SymCallable(lambda en_, x, n=1: _clip_state(x), 'Grid.clip_wavenumbers leaf-wise')
   return g, r
 
@@ -155,11 +156,11 @@ FIELDS = ('vorticity', 'divergence', 'temperature_variation', 'log_surface_press
 def _run_primitive(en, g, state, oro, moist=False, method='explicit_terms'):
   from dinosaur import primitive_equations as pe, sigma_coordinates as sc
   Rg, grav, kappa = en.real('ideal_gas_constant'), en.real('gravity'), en.real('kappa')
-  specs = E.Obj(R=Rg, ideal_gas_constant=Rg, g=grav, kappa=kappa)
+  specs = E.Obj(R=Rg, ideal_gas_constant=Rg, g=grav, kappa=kappa, angular_velocity=en.real('angular_velocity'))
   if moist:
     specs.R_vapor, specs.Cp, specs.Cp_vapor = en.real('R_vapor'), en.real('Cp'), en.real('Cp_vapor')
   coords = E.Obj(horizontal=g, vertical=E.Obj(layers=en.int('layers'), layer_thickness=Marker('thickness')), dycore_sharding=None)
-  self = E.Obj(class_ref=pe.MoistPrimitiveEquations if moist else pe.PrimitiveEquations, coords=coords, orography=oro, coriolis_parameter=W.CORIOLIS, T_ref=TREF,
+  self = E.Obj(class_ref=pe.MoistPrimitiveEquations if moist else pe.PrimitiveEquations, coords=coords, orography=oro, T_ref=TREF,
                include_vertical_advection=True, vertical_advection=sc.centered_vertical_advection, physics_specs=specs, vertical_matmul_method='dense', reference_temperature=TREF,
                _t_omega_over_sigma_sp=E.SymCallable(lambda en_, t, gt, v: W.TOMEGA(t, gt, v), '_t_omega_over_sigma_sp (column contract: C05)'))
   kind, out = en.invoke(en.getattr(self, method), state)
@@ -183,12 +184,12 @@ def primitive_equivariance_contract(en: E.Engine, moist=False, method='explicit_
   ORO = W.ORO
   fx = _run_primitive(en, g, mk(x, +1), ORO, moist, method)
   alg = ML.Algebra(bilinear={'vertical_advection'}, opaque={'t_omega_over_sigma_sp', 'nodal_reciprocal'})
-  for sym, pre, zsign, op_sign, coriolis_img in (('mirror', 'm_', -1, {'cos_lat_d_dlat': -1, 'sec_lat_d_dlat_cos2': -1}, W.NEG(W.CORIOLIS)), ('rotation', 'r_', +1, {}, W.CORIOLIS)):
+  for sym, pre, zsign, op_sign, coriolis_img in (('mirror', 'm_', -1, {'cos_lat_d_dlat': -1, 'sec_lat_d_dlat_cos2': -1}, W.NEG(SINLAT)), ('rotation', 'r_', +1, {}, SINLAT)):
     tx = {n: C(pre + n) for n in names}
     oro_t = C(pre + 'orography')
     ftx = _run_primitive(en, g, mk(tx, zsign), oro_t, moist, method)
     atom_map = {n: tx[n] for n in names}
-    atom_map.update({'orography': oro_t, 'coriolis_parameter': coriolis_img, 'sec2_lat': W.SEC2F, 'sigma_half_levels': SIGH, 'T_ref': TREF, 'nodal_one': ONE})
+    atom_map.update({'orography': oro_t, 'sin_lat': coriolis_img, 'sec2_lat': W.SEC2F, 'sigma_half_levels': SIGH, 'T_ref': TREF, 'nodal_one': ONE})
     outs = [(f, getattr(fx, f), getattr(ftx, f)) for f in FIELDS] + [(f'tracer {qname}', fx.tracers[qname], ftx.tracers[qname])]
     for f, a, b in outs:
       img = ML.transform(a, atom_map, op_sign, W.NEG)
@@ -210,7 +211,7 @@ def shallow_water_equivariance_contract(en: E.Engine, method='explicit_terms'):
   names = ['zeta', 'delta', 'phi']
 
   def run(d, zsign, oro):
-    self = E.Obj(class_ref=sw.ShallowWaterEquations, coords=E.Obj(horizontal=g), orography=oro, coriolis_parameter=W.CORIOLIS, ref_potential=REFPOT,
+    self = E.Obj(class_ref=sw.ShallowWaterEquations, coords=E.Obj(horizontal=g), orography=oro, physics_specs=E.Obj(angular_velocity=en.real('angular_velocity')), ref_potential=REFPOT,
                  density_ratios=z3.Const('density_ratios', z3.DeclareSort('LayerMatrix')))
     kind, out = en.invoke(en.getattr(self, method), E.Obj(vorticity=W.NEG(d['zeta']) if zsign < 0 else d['zeta'], divergence=d['delta'], potential=d['phi']))
     if kind == 'raise':
@@ -220,12 +221,12 @@ def shallow_water_equivariance_contract(en: E.Engine, method='explicit_terms'):
   x = {n: C(n) for n in names}
   fx = run(x, +1, W.ORO)
   alg = ML.Algebra()
-  for sym, pre, zsign, op_sign, coriolis_img in (('mirror', 'm_', -1, {'cos_lat_d_dlat': -1, 'sec_lat_d_dlat_cos2': -1}, W.NEG(W.CORIOLIS)), ('rotation', 'r_', +1, {}, W.CORIOLIS)):
+  for sym, pre, zsign, op_sign, coriolis_img in (('mirror', 'm_', -1, {'cos_lat_d_dlat': -1, 'sec_lat_d_dlat_cos2': -1}, W.NEG(SINLAT)), ('rotation', 'r_', +1, {}, SINLAT)):
     tx = {n: C(pre + n) for n in names}
     oro_t = C(pre + 'orography')
     ftx = run(tx, zsign, oro_t)
     atom_map = {n: tx[n] for n in names}
-    atom_map.update({'orography': oro_t, 'coriolis_parameter': coriolis_img, 'sec2_lat': W.SEC2F, 'reference_potential': REFPOT})
+    atom_map.update({'orography': oro_t, 'sin_lat': coriolis_img, 'sec2_lat': W.SEC2F, 'reference_potential': REFPOT})
     for f in ('vorticity', 'divergence', 'potential'):
       img = ML.transform(getattr(fx, f), atom_map, op_sign, W.NEG)
       if f == 'vorticity' and zsign < 0:
@@ -252,8 +253,8 @@ def _dinv(d):
 
 
 RGAS = _dmul((2, 0, 0), (0, -2, 0), (0, 0, -1))            # J / (kg K) = L^2 T^-2 K^-1
-SCALAR_DIMS = {'radius': LEN, 'ideal_gas_constant': RGAS, 'R_vapor': RGAS, 'Cp': RGAS, 'Cp_vapor': RGAS, 'gravity': (1, -2, 0), 'kappa': DIM0}
-ATOM_DIMS = {'zeta': (0, -1, 0), 'delta': (0, -1, 0), 'T': TEMP, 'lnps': DIM0, 'q': DIM0, 'phi': (2, -2, 0), 'orography': None, 'coriolis_parameter': (0, -1, 0),
+SCALAR_DIMS = {'radius': LEN, 'ideal_gas_constant': RGAS, 'R_vapor': RGAS, 'Cp': RGAS, 'Cp_vapor': RGAS, 'gravity': (1, -2, 0), 'kappa': DIM0, 'angular_velocity': (0, -1, 0)}
+ATOM_DIMS = {'zeta': (0, -1, 0), 'delta': (0, -1, 0), 'T': TEMP, 'lnps': DIM0, 'q': DIM0, 'phi': (2, -2, 0), 'orography': None, 'coriolis_parameter': (0, -1, 0), 'sin_lat': DIM0,
              'sec2_lat': DIM0, 'sigma_half_levels': DIM0, 'T_ref': TEMP, 'nodal_one': DIM0}
 # operators that carry a dimension of their own (by their contracts: the Laplacian eigenvalues are -l(l+1)/radius^2, C02); all others are dimensionless maps
 OP_DIMS = {'laplacian': (-2, 0, 0), 'inverse_laplacian': (2, 0, 0), 'temperature_implicit_operator': TEMP}
@@ -345,7 +346,7 @@ def dimension_contract(en: E.Engine, which='dry', method='explicit_terms'):
   per_time = lambda d: _dmul(d, (0, -1, 0))
   if which == 'shallow':
     from dinosaur import shallow_water as sw
-    self = E.Obj(class_ref=sw.ShallowWaterEquations, coords=E.Obj(horizontal=g), orography=W.ORO, coriolis_parameter=W.CORIOLIS, ref_potential=REFPOT,
+    self = E.Obj(class_ref=sw.ShallowWaterEquations, coords=E.Obj(horizontal=g), orography=W.ORO, physics_specs=E.Obj(angular_velocity=en.real('angular_velocity')), ref_potential=REFPOT,
                  density_ratios=z3.Const('density_ratios', z3.DeclareSort('LayerMatrix')))
     kind, out = en.invoke(en.getattr(self, method), E.Obj(vorticity=C('zeta'), divergence=C('delta'), potential=C('phi')))
     if kind == 'raise':
@@ -417,7 +418,7 @@ def canary_contract(en: E.Engine):
   tx = {n: C('m_' + n) for n in names}
   fx = _run_primitive(en, g, mk(x, +1), W.ORO)
   ftx = _run_primitive(en, g, mk(tx, -1), C('m_orography'))
-  atom_map = dict({n: tx[n] for n in names}, **{'orography': C('m_orography'), 'coriolis_parameter': W.CORIOLIS, 'sec2_lat': W.SEC2F, 'sigma_half_levels': SIGH, 'T_ref': TREF, 'nodal_one': ONE})
+  atom_map = dict({n: tx[n] for n in names}, **{'orography': C('m_orography'), 'sin_lat': SINLAT, 'sec2_lat': W.SEC2F, 'sigma_half_levels': SIGH, 'T_ref': TREF, 'nodal_one': ONE})
   alg = ML.Algebra(bilinear={'vertical_advection'}, opaque={'t_omega_over_sigma_sp', 'nodal_reciprocal'})
   img = W.NEG(ML.transform(fx.vorticity, atom_map, {'cos_lat_d_dlat': -1, 'sec_lat_d_dlat_cos2': -1}, W.NEG))
   ok, why = alg.equal(ftx.vorticity, img)
